@@ -399,37 +399,73 @@ theorem Sched.ready {cfg : Cfg} {view : View} {spawn : Int} {its : List Iter} (h
 
 /-! ### `idle_reset_time` from the event history -/
 
-theorem viewOf_foldl_ge (evs : List Ev) (t : Int) :
-    ∀ acc : Int, acc ≤ evs.foldl (fun acc e => if e.registered && decide (e.t ≤ t) && decide (acc ≤ e.t) then e.t else acc) acc := by
+theorem viewFold_ge (t : Int) (evs : List Ev) : ∀ s : Int × Option Nat, s.1 ≤ (evs.foldl (viewStep t) s).1 := by
   induction evs with
-  | nil => intro acc; exact Int.le_refl _
+  | nil => intro s; exact Int.le_refl _
   | cons e es ih =>
-    intro acc
+    intro s
     simp only [List.foldl_cons]
-    split
-    · rename_i hc
-      simp only [Bool.and_eq_true, decide_eq_true_eq] at hc
-      have := ih e.t
-      omega
-    · exact ih acc
-
-/-- a registered event processed by `t` is not newer than what is read at `t` -/
-theorem viewOf_ge_registered (created : Int) (evs : List Ev) (t : Int) (e : Ev) (he : e ∈ evs)
-    (hr : e.registered = true) (ht : e.t ≤ t) : e.t ≤ viewOf created evs t := by
-  unfold viewOf
-  generalize created = acc
-  induction evs generalizing acc with
-  | nil => cases he
-  | cons x xs ih =>
-    simp only [List.foldl_cons]
-    cases he with
-    | head =>
+    have := ih (viewStep t s e)
+    have h1 : s.1 ≤ (viewStep t s e).1 := by
+      unfold viewStep; simp only
       split
-      · exact viewOf_foldl_ge xs t _
-      · rename_i hc
-        simp only [Bool.and_eq_true, decide_eq_true_eq, hr, ht, true_and] at hc
-        have := viewOf_foldl_ge xs t acc
+      · rename_i hc; simp only [Bool.and_eq_true, decide_eq_true_eq] at hc; omega
+      · exact Int.le_refl _
+    omega
+
+theorem viewFold_seen (t : Int) (s : Int × Option Nat) (e : Ev) : (viewStep t s e).2 = some e.ess := rfl
+
+/-- every change against the previously processed essence that is processed by `t` is not newer than what is read at `t` -/
+theorem viewFold_ge_essential (t c : Int) :
+    ∀ (evs : List Ev) (acc : Int) (p : Nat), c ∈ essentialTimes (some p) evs → c ≤ t →
+      c ≤ (evs.foldl (viewStep t) (acc, some p)).1 := by
+  intro evs
+  induction evs with
+  | nil => intro acc p hc; simp [essentialTimes] at hc
+  | cons e es ih =>
+    intro acc p hc ht
+    simp only [List.foldl_cons]
+    simp only [essentialTimes, List.mem_append] at hc
+    have hs : viewStep t (acc, some p) e = ((viewStep t (acc, some p) e).1, some e.ess) := rfl
+    rw [hs]
+    rcases hc with hc | hc
+    · by_cases hp : some p = some e.ess
+      · simp [hp] at hc
+      · simp only [hp, if_false, List.mem_singleton] at hc
+        subst hc
+        have hne : p ≠ e.ess := fun h => hp (by rw [h])
+        have hreset : resetsIdle e.lastHandled (some p) e.ess = true := by
+          simp [resetsIdle, resetCond, hne]
+        have h1 : e.t ≤ (viewStep t (acc, some p) e).1 := by
+          unfold viewStep; simp only [hreset, Bool.true_and]
+          split
+          · exact Int.le_refl _
+          · rename_i hn; simp only [Bool.and_eq_true, decide_eq_true_eq] at hn; omega
+        have := viewFold_ge t es ((viewStep t (acc, some p) e).1, some e.ess)
+        simp only at this
         omega
-    | tail _ he' => exact ih he' _
+    · exact ih _ _ hc ht
+
+/-- … including the first sight of the object, which the memory's creation time covers -/
+theorem viewOf_ge_essential (created : Int) (evs : List Ev) (t c : Int) (hcr : CreatedByFirstEvent created evs)
+    (hc : c ∈ essentialTimes none evs) (ht : c ≤ t) : c ≤ viewOf created evs t := by
+  unfold viewOf
+  cases evs with
+  | nil => simp [essentialTimes] at hc
+  | cons e es =>
+    simp only [List.foldl_cons]
+    have hs : viewStep t (created, none) e = ((viewStep t (created, none) e).1, some e.ess) := rfl
+    rw [hs]
+    simp only [essentialTimes, List.mem_append] at hc
+    rcases hc with hc | hc
+    · simp at hc
+      subst hc
+      have h0 := hcr e rfl
+      have h1 : created ≤ (viewStep t (created, none) e).1 := by
+        have := viewFold_ge t [e] (created, none); simpa using this
+      have := viewFold_ge t es ((viewStep t (created, none) e).1, some e.ess)
+      simp only at this
+      omega
+    · exact viewFold_ge_essential t c es _ _ hc ht
 
 end Kopf.C10
